@@ -10,6 +10,7 @@ pub mod htmldecode;
 pub mod html;
 pub mod blockh;
 pub mod inlineh;
+pub mod pipelineh;
 pub mod inline;
 pub mod block;
 pub mod noderender;
@@ -64,6 +65,7 @@ pub fn streams() -> Vec<(&'static str, StreamFn)> {
         ("html", html::run as StreamFn),
         ("blockh", blockh::run as StreamFn),
         ("inlineh", inlineh::run as StreamFn),
+        ("pipelineh", pipelineh::run as StreamFn),
         ("inline", inline::run as StreamFn),
         ("block", block::run as StreamFn),
         ("noderender", noderender::run as StreamFn),
